@@ -164,6 +164,8 @@ func selftestFamily(m *stMutant, faults map[string]int) (ncases int) {
 		for _, d := range []string{"self-car", "nested-list:3000"} {
 			run(execDeepEval("e|" + d + "|selftest:" + m.name))
 		}
+	case "pl", "sf", "st":
+		ncases = selftestNewFamily(m, faults)
 	}
 	return
 }
